@@ -7,7 +7,6 @@ Open Scope string_scope.
 (* generic expression trees: what Lark's raw tree shows (parentheses and `?`-rules are inlined) *)
 Inductive gx := GId (s : string) | GK (k : konst) | GNot (a : gx) | GAnd (a b : gx) | GXor (a b : gx) | GXnor (a b : gx)
               | GOr (a b : gx) | GTern (s a b : gx).
-Global Instance konst_eq_dec : EqDecision konst. Proof. solve_decision. Defined.
 Global Instance gx_eq_dec : EqDecision gx. Proof. solve_decision. Defined.
 Fixpoint er_prim (p : prim) : gx := match p with PId s => GId s | PConst k => GK k | PParen o => er_or o end
 with er_unary (u : unary) : gx := match u with UPrim p => er_prim p | UNot p => GNot (er_prim p) end
